@@ -419,6 +419,7 @@ class P(Property):
 
     # ---------------------------------------------------------------- cases
     def cases(self, tier, rng):
+        self._tier = tier
         quick = tier == 'quick'
         out = []
         bases = base_scenarios()
@@ -467,6 +468,10 @@ class P(Property):
         # 5. large inputs
         out += big_cases(tier)
         return out
+
+    def impl_env(self):
+        # watchdog of the harness: a single h3 call that spins is reported as a crash of that case
+        return {'C06_CASE_TIMEOUT_S': os.environ.get('C06_CASE_TIMEOUT_S', '20' if getattr(self, '_tier', 'quick') == 'quick' else '900')}
 
     # ---------------------------------------------------------------- judging
     def family(self, case):
@@ -554,7 +559,7 @@ class P(Property):
                 h = m.group(2)
                 out.append(mk(evs[:i] + ['%s:c:%s' % (m.group(1), h[:len(h) // 2 - (len(h) // 2) % 2] or h[:2])] + evs[i + 1:]))
                 out.append(mk(evs[:i] + ['%s:c:%s' % (m.group(1), h[2:])] + evs[i + 1:]))
-        return [c for c in out if c != case][:150]
+        return [c for c in out if c != case][:64]
 
     # ---------------------------------------------------------------- extra: name the unclassified panic sites
     def extra_checks(self, ctx):
